@@ -124,11 +124,13 @@ bool splinetable<Alloc>::write_key(const char* key, const T& value){
 	std::string valuedata=ss.str();
 	size_t valuelen = valuedata.size() + 1;
 	//For normal (short) keys, we get up to 68 bytes of storage, but for longer keywords
-	//the 'HIERARCH Keyword Convention' kicks in and limits us further
-	if(valuelen-1>maxdatalen){
+	//the 'HIERARCH Keyword Convention' kicks in and limits us further.
+	//A quote inside the value is stored as two quotes, and so takes two bytes.
+	size_t storedlen = valuedata.size() + std::count(valuedata.begin(),valuedata.end(),'\'');
+	if(storedlen>maxdatalen){
 		throw std::runtime_error("Value is too long to be stored as a FITS keyword ('"
-								 +valuedata+"' has length "+std::to_string(valuelen-1)
-								 +", but a maximum of "+std::to_string(maxdatalen)+
+								 +valuedata+"' needs "+std::to_string(storedlen)
+								 +" characters, counting quotes twice, but a maximum of "+std::to_string(maxdatalen)+
 								 " characters will fit with this key since continued "
 								 "string keywords are not currently implemented.)");
 	}
